@@ -794,6 +794,12 @@ class C23(Spec):
         hs, vs = W.HSUB[cdf], W.VSUB[cdf] * (2 if pcm else 1)
         w = rng.choice([1, 2, 3, 5, 8, 12]) * hs
         h = rng.choice([1, 2, 3, 4, 8]) * vs
+        if rng.random() < 0.001:
+            # one very long row / column (a row of more than 64 KiB ... 1 MiB)
+            if rng.random() < 0.7:
+                w, h = rng.choice([16400, 33000, 70000]) * hs, vs
+            else:
+                w, h = hs, rng.choice([16400, 70000]) * vs
         d = rng.choice([1, 2, 3, 7, 8, 9, 10, 12, 15, 16, 17, 24, 31, 32, 33, 48, 63, 64, 65, 100, 128, 129])
         dc = rng.choice([d, d, 8, 1, 10, 64, 12])
 
